@@ -61,14 +61,13 @@ impl FrameStore {
         if len == 0 {
             return None;
         }
-        if seq < self.base_seq {
-            return None;
-        }
-        let idx = usize::try_from(seq - self.base_seq).ok()?;
-        if idx >= len {
-            return None;
-        }
-        Some(idx)
+        // Fast path: contiguous seqs put the frame at `seq - base_seq`. Streams with gaps, repeats
+        // or several sources mixed do not, so the position is only trusted when it holds that seq.
+        let fast = seq
+            .checked_sub(self.base_seq)
+            .and_then(|offset| usize::try_from(offset).ok())
+            .filter(|idx| *idx < len && self.frames[*idx].seq == seq);
+        fast.or_else(|| self.frames.iter().position(|event| event.seq == seq))
     }
 }
 
